@@ -39,8 +39,11 @@ def _init_worker(path):
     PROG = Program(path)
 
 
-def lemma_args(harness):
+def lemma_args(harness, tier='quick', seed=1):
     """argument sets for parametrised kernel lemmas"""
+    if harness == 'vh_lemma_Decimal_digits':
+        import props
+        return [[0, 0]] + [[L, z] for (L, z) in props.lz_pairs(tier, seed)]
     if harness.endswith('_lsh') or harness.endswith('_rsh'):
         bits = int(re.search(r'uint(\d+)_', harness).group(1))
         return [[o] for o in range(0, bits + 3)]
@@ -344,7 +347,7 @@ def _main(prop, tier, seed, nproc, spec, tmpdir, t_start):
                                           'insns': 0, 'encoded': [], 'used_summaries': [], 'reach': {}, 'purity': [],
                                           'global_reads': [], 'wall': 0, 'solver': {}})
                     continue
-                for a in lemma_args(h):
+                for a in lemma_args(h, tier, seed):
                     o = dict(base_opts)
                     o['timeout'] = max(o['timeout'], 60)
                     ljobs.append((h, a, o))
@@ -412,7 +415,7 @@ def _main(prop, tier, seed, nproc, spec, tmpdir, t_start):
                 validated += 1
             else:
                 mismatches.append({'case': {k: c[k] for k in ('harness', 'args', 'inputs')}, 'interp': {'observed': c['observed'], 'failures': c['failures'], 'panic': c['panic']}, 'native': o})
-        rdir = os.path.join(ROOT, 'replays', prop)
+        rdir = os.path.join(os.environ.get('VERIF_OUT', ROOT), 'replays', prop)
         # A model that violates an intermediate obligation (e.g. the sticky flag handed to the rounding kernel) may
         # give a correct end result for the rounding mode the solver happened to pick.  Before calling it a
         # mismatch, replay the same inputs under every rounding mode / sign: any variant that fails natively is a
@@ -523,8 +526,9 @@ def _main(prop, tier, seed, nproc, spec, tmpdir, t_start):
         'assumptions': spec.get('assumptions', []),
         'wall_s': round(wall, 2), 'violations': len(violations),
     }
-    os.makedirs(os.path.join(ROOT, 'evidence'), exist_ok=True)
-    with open(os.path.join(ROOT, 'evidence', prop + '.json'), 'w') as f:
+    evdir = os.path.join(os.environ.get('VERIF_OUT', ROOT), 'evidence')
+    os.makedirs(evdir, exist_ok=True)
+    with open(os.path.join(evdir, prop + '.json'), 'w') as f:
         json.dump(ev, f, indent=1, default=str)
     # ---------------------------------------------------------------- report
     print('%s tier=%s configs=%d lemmas=%d paths=%d obligations=%d unsat=%d folded=%d sat=%d undecided=%d validated=%d wall=%.1fs' % (
